@@ -31,8 +31,9 @@ P = {
                  "C16_consistent_pair", "C16_sign_sees_one_load", "C16_torn_skeleton_refuted",
                  "C16_conc_token_of_own_section", "C16_conc_hit_same_state", "C16_conc_hit_within_window", "C16_conc_invariant",
                  "C16_conc_rejected_reloads_unobservable", "C16_conc_sequential_is_exec", "C16_conc_nonvacuous",
-                 "C16_conc_F2_pinned_refuted", "C16_conc_return_after_reload",
-                 "C16_fine_is_atomic", "C16_fine_refines", "C16_fine_token_of_own_section", "C16_fine_nonvacuous"],
+                 "C16_conc_F1_pinned_refuted", "C16_conc_F2_pinned_refuted", "C16_conc_return_after_reload",
+                 "C16_fine_is_atomic", "C16_fine_refines", "C16_fine_token_of_own_section", "C16_fine_nonvacuous",
+                 "C16_fine_programs"],
     "streams": [{
         "name": "histories", "pkg": _PKG, "test": "TestVerifC16",
         "overlay": _OVERLAY, "eval_module": "Run.Eval_C16", "check_term": _CHECK,
@@ -103,16 +104,17 @@ P = {
         "assumed to exclude writers from readers/writers; races themselves are only exhibited by the -race stress stream",
         "the programs of the machines: the C16_conc_* theorems take Hash(), signWithHash(), Keys() and the swap in load as atomic "
         "steps; C16_fine_is_atomic justifies that for the machine one level down (RLock/RUnlock/Lock/Unlock and each access to "
-        "jwk/key/pubKeys as steps, a blocking RWMutex, reloads and JWKS requests as threads) whose programs are hand-written: "
-        "Execute = RLock, jwk, RUnlock, Get, RLock, jwk, key, RUnlock+sign, Set, return; load = parse, Lock, jwk=, key=, pubKeys=, "
-        "Unlock; JWKS = RLock, pubKeys, RUnlock. That the source has this structure is checked on every run on the extracted lock "
-        "skeleton (wf_skeleton: one section per method, reads under RLock, a writer assigns all three fields) and on the extracted event "
-        "skeleton of jwt_finalizer.go (exec_shape: exactly one Hash-like read section, Get with its key, one Sign-like read section "
-        "reading jwk and key, Set with the key derived from it, header; by role, not by name; order/number of reads inside one section "
-        "are not compared — any such section is covered by C16_consistent_pair). Names `signer`, `cache.Ctx`, `Get`, `Set`, "
-        "`AddHeaderForUpstream`, `jwtFinalizer`, `jwtSigner`, `mut`, `jwk`/`key`/`pubKeys` are wired into the extractors; a Go `if` "
-        "containing a return forks a path of Execute, everything else and every inlined callee is read straight-line; sync.RWMutex is "
-        "modelled as: RLock admitted iff no writer holds it, Lock iff nobody holds it (no fairness, no writer preference — safety only)",
+        "jwk/key/pubKeys as steps, a blocking RWMutex, reloads and JWKS requests as threads) FOR ALL section programs P with "
+        "progs_ok P; P is read off the lock skeleton extracted from jwt_signer.go on every run (`programs`: the accesses, in order, "
+        "of the two signer methods Execute calls, of the reader of pubKeys and of the writer, each required to be ONE section "
+        "with nothing outside it) and progs_ok is evaluated on it (stream exec-skeleton). What stays hand-written is the OUTER "
+        "program of a call — Hash section, Get, Sign section + signing on the copies, Set, header/return — and of load (parse and "
+        "validate outside the lock, then one write section); it is tied to jwt_finalizer.go by exec_shape on the extracted event "
+        "skeleton (exactly one Hash-like call, Get with its key, one Sign-like call, Set with the key derived from it, header; by "
+        "role, not by name). Names `signer`, `cache.Ctx`, `Get`, `Set`, `AddHeaderForUpstream`, `jwtFinalizer`, `jwtSigner`, `mut`, "
+        "`jwk`/`key`/`pubKeys` are wired into the extractors; a Go `if` containing a return forks a path of Execute, everything else "
+        "and every inlined callee is read straight-line; sync.RWMutex is modelled as: RLock granted iff no writer holds it, Lock iff "
+        "nobody holds it (no fairness, no writer preference — safety only); steps are sequentially consistent",
         "the conc stream can park a call only at the cache operations (after its Hash section, after the lookup, after its Sign "
         "section, after the store); there is no yield point inside the signer or between Sign and the computation of the Set key — "
         "changes there are caught by the structural checks, not by forced schedules",
@@ -147,12 +149,13 @@ P = {
                   "than ttl-5s of cache time before (C16_conc_hit_same_state, C16_conc_hit_within_window); rejected reloads leave the "
                   "whole configuration unchanged (C16_conc_rejected_reloads_unobservable). DOWN TO LOCK OPERATIONS (C16_fine_*): in the "
                   "machine where RLock/RUnlock/Lock/Unlock and every single access to jwk, key, pubKeys are steps, the RWMutex blocks, "
-                  "and reloads (parse; Lock; three assignments; Unlock) and JWKS requests are threads, every schedule is — by an "
-                  "abstraction function, step for step, with the invariant 'a writer excludes readers and writers; a reader's copies are "
-                  "the current fields; the writer has assigned what it passed' — a schedule of the machine with atomic sections "
-                  "(C16_fine_is_atomic, C16_fine_refines), so for all interleavings at that level a returned token belongs to the "
-                  "moment the call itself releases the read lock of its Hash or Sign section, and the fields then are those of ONE "
-                  "loaded file (C16_fine_token_of_own_section). Tied to the code by ~600 (quick) / 12000 "
+                  "and reloads (parse; Lock; assignments; Unlock) and JWKS requests are threads, for ALL programs of the critical "
+                  "sections that pass progs_ok (which fields each section reads/assigns, in which order — read off the extracted lock "
+                  "skeleton on every run), every schedule is — by an abstraction function, step for step, with the invariant 'a writer "
+                  "excludes readers and writers; a reader's copies are the current fields; every field is the new one or still to be "
+                  "assigned' — a schedule of the machine with atomic sections (C16_fine_is_atomic, C16_fine_refines), so for all "
+                  "interleavings at that level a returned token belongs to the moment the call itself releases the read lock of its "
+                  "Hash or Sign section, and the fields then are those of ONE loaded file (C16_fine_token_of_own_section). Tied to the code by ~600 (quick) / 12000 "
                   "(thorough) generated histories through the real finalizer, signer, key store, registry and management service per "
                   "run, by ~300 / 6000 schedules of 2-4 concurrent calls forced onto the real finalizer (goroutines parked at the cache "
                   "operations) and compared with the machine step for step, by re-extracting and checking the lock skeleton and "
@@ -162,8 +165,9 @@ P = {
                   "constrains exp relative to iat, not iat itself); the interleaving theorem is about the extracted lock skeleton under an "
                   "idealised RWMutex (field and type names are wired into the extractor; a refactoring to another synchronisation "
                   "primitive needs the extractor adapted), the Go memory model is not modelled (sequentially consistent steps); the "
-                  "programs of the concurrent machines (C16/Conc.v, C16/ConcFine.v) are hand-written and tied to the source by the "
-                  "structural checks on the two extracted skeletons, not generated from it; "
+                  "outer program of Execute in the concurrent machines (Hash section, Get, Sign section, Set, return) is hand-written and tied "
+                  "to the source by exec_shape on the extracted event skeleton; the programs of the sections themselves are read off the "
+                  "extracted lock skeleton (programs / progs_ok); "
                   "'verifies against the published set at the moment of return' holds only if no reload succeeded since the "
                   "call's own section (C16_conc_return_after_reload is the counter-example: nothing a lock in the signer could prevent); "
                   "the reuse window starts at the cache store, time between a call's Sign section and its store is not counted by the "
